@@ -547,6 +547,32 @@ func checkC14(c *Ctx, r *Report) error {
 	// fixed boundary files
 	items = append(items, item{"raw/empty", nil}, item{"raw/exactly-84-bytes", make([]byte, 84)})
 	n := TierN(c.Tier, 3000, 30000, 6000)
+	if c.Replay != "" {
+		// re-run only the inputs recorded in a replay file
+		var rp struct {
+			Failing []struct {
+				Input struct {
+					Hex string `json:"hex"`
+				} `json:"input"`
+			} `json:"failing_inputs"`
+		}
+		b, err := os.ReadFile(c.Replay)
+		if err != nil {
+			return err
+		}
+		if err := json.Unmarshal(b, &rp); err != nil {
+			return err
+		}
+		items, n = nil, 0
+		for _, f := range rp.Failing {
+			b := make([]byte, len(f.Input.Hex)/2)
+			for i := range b {
+				v, _ := strconv.ParseUint(f.Input.Hex[2*i:2*i+2], 16, 8)
+				b[i] = byte(v)
+			}
+			items = append(items, item{"replay", b})
+		}
+	}
 	for k := 0; k < n; k++ {
 		var b []byte
 		var s string
@@ -579,13 +605,9 @@ func checkC14(c *Ctx, r *Report) error {
 		key := fileKey(it.content)
 		r.Case(it.stratum, key, size > 0)
 		input := map[string]interface{}{"size": size}
-		if size <= 400 {
-			input["hex"] = fmt.Sprintf("%x", it.content)
-			if printable(it.content) {
-				input["text"] = string(it.content)
-			}
-		} else {
-			input["stratum"], input["seed"], input["head_hex"] = it.stratum, c.Seed, fmt.Sprintf("%x", it.content[:100])
+		input["hex"] = fmt.Sprintf("%x", it.content)
+		if size <= 400 && printable(it.content) {
+			input["text"] = string(it.content)
 		}
 		var tris []tri
 		for j := 0; j+8 < len(res.Tris); j += 9 {
